@@ -174,6 +174,22 @@ func runC15(c *CaseCtx) (res CaseResult) {
 				res.obs("roundtrip_values", 1)
 			}
 		}
+		// a second set of the same shape holds its own values: writing to it
+		// must not change what the first set renders
+		vs3, _ := mkSet()
+		want := append([]int64{}, ids...)
+		if setAll(vs3, 5000) {
+			for i, v := range vs.Values() {
+				if id, _ := idOf(v.Value); id != want[i] {
+					res.violate("C15", "sets-share-values", fmt.Sprintf("value %d (%v) of one set changed from #%d to #%d when another set of the same shape was written", i, ls[i], want[i], id), det)
+				}
+			}
+			for i, sv := range vs.SignatureValues() {
+				_ = i
+				_ = sv
+			}
+			res.obs("independent_sets_checked", 1)
+		}
 	} else {
 		res.obs("roundtrip_skipped_ambiguous", 1)
 	}
